@@ -625,10 +625,10 @@ def check_case(ctx, case, collect=None):
                     df = pd.DataFrame({'i': [1, 2], 'o': col})
                     if tr == 'csv':
                         pdio.dump_df(df, os.path.join(d, 'f'), gz=case['gz'])
-                        df2 = pdio.load_df(os.path.join(d, 'f'), gz=case['gz'])
+                        df2 = pdio.load_df(os.path.join(d, 'f'), gz=case['gz'], auto_gamma=bool(case['seed'] % 2))
                     else:
                         pdio.to_sql(df, 'tab', os.path.join(d, 'f.db'), gz=case['gz'])
-                        df2 = pdio.read_sql('SELECT * from tab', os.path.join(d, 'f.db'), auto_gamma=False)
+                        df2 = pdio.read_sql('SELECT * from tab', os.path.join(d, 'f.db'), auto_gamma=bool(case['seed'] % 2))
                     y = df2['o'][1]
                     if isinstance(x, np.ndarray):
                         ref = canon(list(x.ravel()))
@@ -646,6 +646,10 @@ def check_case(ctx, case, collect=None):
                     elif isinstance(y, list) and len(y) == 1 and isinstance(x, list):
                         y = y[0]
             except Exception as e:
+                if tr in ('csv', 'sql') and case['seed'] % 2 and 'common spacing' in str(e):
+                    # auto_gamma=True analyses on import; replicas without a common spacing cannot be analysed (C02: refused)
+                    ctx.count('auto-gamma-refused:no-common-spacing')
+                    return probs
                 probs.append(('violation', 'roundtrip-exception:%s:%s' % (case['struct'], tr), '%s: %s' % (type(e).__name__, str(e)[:200])))
                 return probs
             got = canon(y)
